@@ -565,6 +565,24 @@ class C10(Check):
                 return "nrpickler.dumps(protocol=%d) raised %s: %s" % (proto, type(exc).__name__, exc)
             if f.getvalue() != data:
                 return "nrpickler.dump and dumps disagree (protocol %d)" % proto
+            if proto in (2, 4):
+                # the two entry points given the same OPTIONS (dill's `recurse`, `byref`): the same bytes, or the same refusal
+                import warnings
+                for kw in ({"recurse": True}, {"byref": True}, {"recurse": True, "byref": True}):
+                    with warnings.catch_warnings():
+                        warnings.simplefilter("ignore")         # dill warns about classes it cannot find by name
+                        try:
+                            a_ = nrpickler.dumps(root, protocol=proto, **kw)
+                        except Exception as exc:  # noqa: BLE001
+                            a_ = ("raised", type(exc).__name__)
+                        f2 = io.BytesIO()
+                        try:
+                            nrpickler.dump(root, f2, protocol=proto, **kw)
+                            b_ = f2.getvalue()
+                        except Exception as exc:  # noqa: BLE001
+                            b_ = ("raised", type(exc).__name__)
+                    if a_ != b_:
+                        return "nrpickler.dump and dumps disagree when called with %r (protocol %d)" % (kw, proto)
             try:
                 ref = dill.dumps(root, protocol=proto)
                 if opstream(ref) == opstream(data):
